@@ -134,7 +134,7 @@ def checkpoint(k, ctx, where):
             # write_cmake through a throw-away file in the sandbox
             p = os.path.join(ctx.workdir, "out.cmake")
             kg.write_cmake(k, p)
-            cm = open(p).read()
+            cm = open(p, encoding="utf-8", errors="surrogateescape").read()
     except Exception as e:
         # a generator crashing on an unrelated option is C06's subject (not applicable), not C05's
         ctx.counters["op_raised:checkpoint/" + type(e).__name__] += 1
